@@ -1,12 +1,13 @@
 (* C01 — The expression algebra preserves bit-vector meaning.
    Reference semantics: Amoco.Exp.Sem.denote (fixed-width two's-complement arithmetic, from the property text).
    Models: Amoco.Exp.Cst (the cst class), Amoco.Exp.Eval (exp.eval) — both compared with the implementation on
-   every run (values, widths AND sign flags), see harness/c01.py.  The rewrite rules of the simplifier are
-   covered by the Rules file (separate theorems) and, end to end, by checking the implementation's simplified
+   every run (values, widths AND sign flags), see harness/c01.py.  The rewrite rules of the simplifier
+   (eqn1_helpers / eqn2_helpers) are modelled one by one in Amoco.Exp.Rules, proved sound below and compared with
+   the implementation's rule functions on every run; and they are covered, end to end, by checking the implementation's simplified
    trees against `denote` inside Coq. *)
 From Coq Require Import ZArith List Bool.
 Import ListNotations.
-Require Import Amoco.Exp.Sem Amoco.Exp.Cst Amoco.Exp.CstProofs Amoco.Exp.Eval Amoco.Exp.EvalProofs.
+Require Import Amoco.Exp.Sem Amoco.Exp.Cst Amoco.Exp.CstProofs Amoco.Exp.Eval Amoco.Exp.EvalProofs Amoco.Exp.Rules Amoco.Exp.RulesProofs.
 Open Scope Z_scope.
 
 (* --- constant folding: every cst operator, every width, any sign flags on the operands --- *)
@@ -75,4 +76,46 @@ Example C01_nonvacuous :
   wf e128 = true /\ covered e128 = true /\
   eval env e128 = EOk (C (5 + 2 ^ 127 * 2 ^ 0 + (2 ^ 63) * 2 ^ 64 - 2 ^ 127) 128 false) /\
   denote env e128 = Some (5 + 2 ^ 63 * 2 ^ 64).
+Proof. vm_compute. repeat split; reflexivity. Qed.
+
+(* --- the simplifier: every rewrite rule of eqn1_helpers / eqn2_helpers modelled in Amoco.Exp.Rules (negation rules,
+       +/- re-association and constant merging, neutral / absorbing constants, mask -> slice, constant shifts -> composition
+       or 0, ==bit, part-wise logic on compositions) keeps the width and the meaning of the node it rewrites: for every
+       operand tree, every width, every valuation --- *)
+Theorem C01_simplifier_rules_sound : forall r, In r rules_unconditional ->
+  forall e e', wf e = true -> r e = Some e' ->
+  esize e' = esize e /\ forall env d, denote env e = Some d -> denote env e' = Some d.
+Proof. intros r Hin. exact (proj1 (Forall_forall _ _) rules_sound r Hin). Qed.
+Print Assumptions C01_simplifier_rules_sound.
+
+(* any chain of fired rules (each applied to a well-sized node) preserves the meaning *)
+Theorem C01_rewrite_chains_preserve : forall e e', rewrites e e' ->
+  esize e' = esize e /\ forall env d, denote env e = Some d -> denote env e' = Some d.
+Proof. exact rewrites_preserve. Qed.
+Print Assumptions C01_rewrite_chains_preserve.
+
+(* the "x op x" rule fires on operands whose PRINTED forms agree; it is sound when the operands are identical ... *)
+Theorem C01_same_operand_rule_sound : forall e e', wf e = true -> r2_same e = Some e' -> operands_identical e = true ->
+  esize e' = esize e /\ forall env d, denote env e = Some d -> denote env e' = Some d.
+Proof. exact r2_same_sound. Qed.
+Print Assumptions C01_same_operand_rule_sound.
+(* ... and refuted when they only print alike (same names, different declared signedness): a witness, see DESIGN.md *)
+Theorem C01_same_operand_rule_printed_form_refuted :
+  exists e e' env d, wf e = true /\ r2_same e = Some e' /\ denote env e = Some d /\ denote env e' <> Some d.
+Proof. exact r2_same_mixed_sign_refuted. Qed.
+Print Assumptions C01_same_operand_rule_printed_form_refuted.
+
+(* Non-vacuity of the rule theorems: each rule fires on a concrete well-sized node *)
+Example C01_rules_fire :
+  let a := EReg 0 8 false in let b := EReg 1 8 false in let k c := ECst c 8 false in
+  wf (EOp Sub (EOp Add a (k 5) 8 false) b 8 false) = true /\
+  r2_reassoc_l (EOp Sub (EOp Add a (k 5) 8 false) b 8 false) = Some (EOp Add (EOp Sub a b 8 false) (k 5) 8 false) /\
+  r2_merge_consts (EOp Sub (EOp Sub a (k 5) 8 false) (k 250) 8 false) = Some (EOp Sub a (k 255) 8 false) /\
+  r2_mask (EOp And a (k 60) 8 false) = Some (ECat (ECst 0 2 false) (ECat (ESlc a 2 4 false) (ECst 0 2 false) 6 false) 8 false) /\
+  r2_shift_comp (EOp Shl a (k 3) 8 false) = Some (ECat (ECst 0 3 false) (ESlc a 0 5 false) 8 false) /\
+  r2_shift_out (EOp Shr a (k 9) 8 false) = Some (ECst 0 8 false) /\
+  r2_eq_bit (EOp Eq (EOp Lt a b 1 false) (ECst 0 1 false) 1 false) = Some (EOp Ge a b 1 false) /\
+  r1_neg_arith (EUop Neg (EOp Sub a b 8 false) 8 false) = Some (EOp Add (EUop Neg a 8 false) b 8 false) /\
+  r2_comp_logic (EOp Xor (ECat (EReg 2 4 false) (EReg 3 4 false) 8 false) (k 90) 8 false)
+    = Some (ECat (EOp Xor (EReg 2 4 false) (ECst 10 4 false) 4 false) (EOp Xor (EReg 3 4 false) (ECst 5 4 false) 4 false) 8 false).
 Proof. vm_compute. repeat split; reflexivity. Qed.
